@@ -402,6 +402,22 @@ PAYLOADS = [
     ("deep-parens", "huge", "(" * 90 + "1" + ")" * 90),
     ("deep-binop", "huge", "1+" * 400 + "1"),
     ("deep-unary", "huge", "not " * 300 + "True"),
+    # towers: one construct nested 26 times (far below the recursion limit) - translating an argument more than once per
+    # level would make these exponential; each must still be handled promptly
+    ("tower-int-str", "huge", "int(str(" * 26 + "7" + "))" * 26),
+    ("tower-float-str-concat", "huge", "float('0' + str(" * 26 + "1.5" + "))" * 26),
+    ("tower-int-fstring", "huge", "int(f\"{int(f'{" * 10 + "3" + "}')}\")" * 10),
+    ("tower-abs", "huge", "abs(" * 26 + "-3" + ")" * 26),
+    ("tower-min-max", "huge", "min(9, max(1, " * 26 + "4" + "))" * 26),
+    ("tower-len-str", "huge", "len(str(" * 26 + "12345" + "))" * 26),
+    ("tower-str", "huge", "str(" * 26 + "5" + ")" * 26),
+    ("tower-ternary", "huge", "(1 if True else " * 26 + "0" + ")" * 26),
+    ("tower-bool-not", "huge", "(not " * 26 + "True" + ")" * 26),
+    ("tower-index", "huge", "[1, 2, 3][" * 20 + "0" + "]" * 20),
+    ("tower-list", "huge", "[" * 26 + "1" + "]" * 26),
+    ("tower-compare", "huge", "(" * 26 + "1" + " < 2)" * 26),
+    ("tower-round-int-float", "huge", "int(float(" * 26 + "2.5" + "))" * 26),
+    ("tower-user-call", "huge", "ord(chr(" * 26 + "65" + "))" * 26),
     ("div-zero", "arith", "1/0"),
     ("mod-zero", "arith", "1%0"),
     ("floordiv-zero", "arith", "1//0"),
